@@ -95,7 +95,10 @@ def coq_args(case, obs, bd):
     elif out == '' or out.endswith('/'):
         om = f'(OutDir {cs(out)})'
     else:
-        om = f'(OutFile {cs(out)})'
+        # the model's names are FILES: a single out path is given by the file it denotes
+        # (link / '..' spellings resolved by the harness: resolve_targets)
+        tg = [t for _, t in obs['targets'] if t is not None]
+        om = f'(OutFile {cs(tg[0] if len(obs["paths"]) == 1 and tg else out)})'
     paths = pv.coq_list([cs(p) for p in obs['paths']])
     d = bd.snap(obs['before'])
     faults = pv.coq_list([f'({k}%nat, {"Raise" if m == "raise" else "Crash"})' for k, m in case['faults']])
@@ -106,9 +109,10 @@ def run_killed(case):
     """Real kill: a child process runs the step and os._exit()s at the crash primitive."""
     root = tempfile.mkdtemp(prefix='c15k_')
     try:
-        F.populate(root, case['files'])
+        F.populate(root, case['files'], case.get('links'))
         before = F.snapshot(root)
         paths = F.glob_paths(case, root)
+        targets = F.resolve_targets(case, root, paths)
         code = ('import sys, json, logging; import c15_fs as F;'
                 'logging.getLogger("pypyr").addHandler(logging.NullHandler());'
                 'logging.getLogger("pypyr").propagate = False;'
@@ -133,10 +137,10 @@ def run_killed(case):
             final.append([n, b])
         final.sort()
         obs = {'before': before, 'paths': paths, 'events': None, 'outcome': outcome,
-               'final': final, 'hit': [], 'nprims': -1}
+               'final': final, 'hit': [], 'nprims': -1, 'targets': targets}
     finally:
         shutil.rmtree(root, ignore_errors=True)
-    obs['table'] = F.plan_table(case, before, paths)
+    obs['table'] = F.plan_table(case, before, paths, targets)
     return obs
 
 
@@ -144,11 +148,12 @@ class Prop(PropBase):
     id = 'C15'
     coq_imports = ['PV.Model.FsRewrite']
     props_file = 'theories/Props/C15.v'
-    n_cases = {'quick': 2500, 'thorough': 12000}
+    n_cases = {'quick': 4000, 'thorough': 14000}
     parallel = True
     rule = ('scenarios = 5 steps (fileformat, filereplace, fileformatjson/yaml/toml) x payloads of '
             '0-4 lines/nodes x {single file, list (sub-directory, missing entry, duplicate), glob '
-            '(flat, recursive)} x out in {absent, same file, same directory, elsewhere} x data '
+            '(flat, recursive)} x out in {absent, same file, same directory, elsewhere, a symlink / hard '
+            'link / .. or . spelling naming the in file, a symlink to another file} x data '
             'failures (a {missing} key at every item position, malformed payload). For each '
             'scenario the real step is run once to count its primitives N; cases = the fault-free '
             'run (its snapshot prefixes are every crash point) + a raise at EVERY k < N + second '
@@ -163,8 +168,12 @@ class Prop(PropBase):
         'NamedTemporaryFile returns a name that does not exist (freshness hypothesis of the theorems)',
         'the formatter and the json/yaml/toml (de)serialisers are a parameter of the model: the '
         'chunk sequence of each payload is taken from a fault-free reference run of the real code',
-        'glob.glob, os.path.samefile, Path.is_file are trusted (same calls made by the harness); '
-        'no symbolic or hard links in the generated directories',
+        'glob.glob, Path.is_file and the operating system\'s notion of "same file" are trusted: the '
+        'harness decides which FILE an out path denotes with os.path.samefile / realpath on the '
+        'populated directory (its own calls, not pypyr\'s) and gives the model files, not spellings. '
+        'Links ARE generated: out as a symbolic link to in, a hard link to in, a ../ or ./ spelling '
+        'of in (all must be edited in place) and a symbolic link to another file (must not). '
+        'in paths that are themselves links, and links to directories, are not generated',
         'fault injection wraps open / NamedTemporaryFile / handle.write / handle.close / os.replace / '
         'os.remove inside pypyr.utils.filesystem; handle.writelines is replaced by the equivalent '
         'loop over write (what _io._IOBase.writelines does); a failing injected primitive has no effect',
@@ -240,9 +249,10 @@ class Prop(PropBase):
         paths = [p for p in obs['paths'] if p in orig and not p.endswith('/')]
         many = len(obs['paths']) > 1 and case.get('out') not in (None, '') \
             and not case['out'].endswith('/')
-        inplace = [] if many else [p for p in paths if F.in_place(case, p)]
-        direct_out = set() if many else {os.path.normpath(F.target_of(case, p))
-                                         for p in paths if not F.in_place(case, p)}
+        targets = obs['targets']        # which FILE each out path denotes (samefile / realpath)
+        tmap = {p: t for p, t in targets}
+        inplace = [] if many else [p for p in paths if F.in_place(targets, p)]
+        direct_out = set() if many else {tmap[p] for p in paths if not F.in_place(targets, p)}
         # what each in-place file may hold: old, then the complete result of each rewrite of it
         chain = {}
         for p in inplace:
